@@ -283,7 +283,16 @@ func runC17Wire(c *fw.Ctx, id string, v refmatch.Variant, rdns, viaHTTP bool, n 
 		}
 		var rs *rdnsScript
 		if rdns {
-			rs = installResolver(func(addr string) ([]string, error, time.Duration) { return namesFor(addr), nil, time.Millisecond })
+			slow := n%3 == 0 // a slow but successful resolver: 3 s per lookup, inside the 5 s lookup timeout
+			rs = installResolver(func(addr string) ([]string, error, time.Duration) {
+				if slow {
+					return namesFor(addr), nil, 3 * time.Second
+				}
+				return namesFor(addr), nil, time.Millisecond
+			})
+			if slow {
+				c.Count("requests_with_slow_resolver", 1)
+			}
 		}
 		var out *result.Results
 		var raw []byte
@@ -325,6 +334,9 @@ func runC17Wire(c *fw.Ctx, id string, v refmatch.Variant, rdns, viaHTTP bool, n 
 				c.Count("requests_with_ended_context", 1)
 			}
 			out, rerr = env.run(ctx)
+			// the document is judged 6 virtual seconds after it was handed out: whatever the request left running (a
+			// lookup that outlives it) has finished by then, and the caller's document must still be the redacted one
+			time.Sleep(6 * time.Second)
 			if rerr != nil {
 				c.Violate("C17", "run-failed", fmt.Sprintf("%s: %v", id, rerr), nil)
 				if rs != nil {
